@@ -50,6 +50,8 @@ def plan(prop, tier):
     P[prop].append(('L8', lambda: LY.L8(tier, sch)))
     P[prop].append(('L7m', lambda: LY.L7m(tier, sch)))
     P[prop].append(('L1p', lambda: LY.L1p(tier, sch)))
+    if prop in ('C02', 'C07', 'C14', 'C09', 'C03', 'C04'):
+        P[prop].append(('L6r', lambda: (s for s in LY.L6r(tier) if s.sched in sch)))
     if prop in ('C03', 'C04', 'C14'):
         P[prop].append(('L2ms', lambda: LY.L2ms(tier)))
     if prop in ('C07', 'C14', 'C04', 'C03'):
@@ -304,14 +306,16 @@ def reuse_histories(prop, acc):
     from ..sched import scenario as SC
     Counting, _ = SC._cls()
     kinds = ('fwd',) if prop in ('C02', 'C08') else (('bwd',) if prop == 'C09' else ('fwd', 'bwd'))
-    seconds = [((None, None, None), ((0, 1),), (4, 12, 8)), ((None, 0, 0, None), ((0, 3),), (None, 12, 4, 8)),
-               ((None, None), (), (20, 2.5))]
+    seconds = [((None, None, None), ((0, 1),), (4, 12, 8), None), ((None, 0, 0, None), ((0, 3),), (None, 12, 4, 8), None),
+               ((None, None), (), (20, 2.5), None),
+               # the ids of the first plan (1, 2) now sit below a NEW summary (id 3): the tasks were grouped after the first calc
+               ((None, 0, 0), (), (None, 12, 4), (3, 1, 2))]
     for sched_kind in kinds:
         A = MON if sched_kind == 'fwd' else MON + 28 * DAY
         for bal in (True, False):
             for first in ('ok', 'fails'):
                 for mode in ('same-scheduler', 'new-scheduler-same-resources'):
-                    for par, links, ests in seconds:
+                    for par, links, ests, idorder in seconds:
                         def mkres():
                             # B's calendar ends (forward) / begins (backward) a week from the anchor: too much work on B fails
                             if sched_kind == 'fwd':
@@ -326,7 +330,10 @@ def reuse_histories(prop, acc):
                         sc1 = Scenario(sched_kind, bal, A, LY.mk_tasks((None, None), a1), [], cals=cals, layer='HC')
                         lv = [i for i in range(len(par)) if LY.is_leaf(par, i)]
                         a2 = {i: {'estimate': ests[i], 'resource': 'AB'[k % 2]} for k, i in enumerate(lv)}
-                        sc2 = Scenario(sched_kind, bal, A, LY.mk_tasks(par, a2), list(links), cals=cals, layer='HC')
+                        tasks2 = LY.mk_tasks(par, a2)
+                        if idorder is not None:
+                            tasks2 = [(idorder[k], p_, a_) for k, (_, p_, a_) in enumerate(tasks2)]
+                        sc2 = Scenario(sched_kind, bal, A, tasks2, list(links), cals=cals, layer='HC')
                         sch = make_scheduler(sc1, resources)
                         ex1 = execute(sc1, scheduler=sch)
                         if (ex1.status == 'ok') != (first == 'ok'):
@@ -358,6 +365,38 @@ def reuse_histories(prop, acc):
                                 V('no-schedule-after-earlier-calc', f'{first}/{mode}', f'the second plan was not scheduled: {ex2.error!r}')
 
 
+def replan_histories(prop, acc):
+    """A result is planned again: the schedule returned by calc is taken as the new input, the dates of its leaves are reopened
+    (summaries keep the values the first run rolled up), and a fresh scheduler of the same kind plans it. The second result is
+    judged like a first one (nothing the first run left on the tasks may matter)."""
+    kinds = ('fwd',) if prop in ('C02', 'C08') else (('bwd',) if prop == 'C09' else ('fwd', 'bwd'))
+    for sc in LY.L1('quick', kinds, balances=(True,), anchors=[MON], nmax=3):
+        if not sc.links and all(p_ is None for _, p_, _ in sc.tasks):
+            continue
+        ex1 = execute(sc)
+        if ex1.status != 'ok':
+            continue
+        R = ex1.result.schedule
+        try:
+            objs2 = [R[tid] for tid, _, _ in sc.tasks]
+        except RuntimeError:
+            continue
+        for t in objs2:
+            # forward: a future end on any task is a reason to refuse the plan, so all dates are reopened; backward: the summaries
+            # keep the dates the first run gave them
+            if len(t.children) == 0 or sc.sched == 'fwd':
+                t.start = None
+                t.end = None
+        sc2 = Scenario(sc.sched, sc.balance, sc.anchor, sc.tasks, sc.links, sc.cals, sc.dflt, sc.clock, layer='HC')
+        ex2 = execute(sc2, prebuilt=(R, objs2, []))
+        acc.count('premise:result-planned-again')
+        extra = {'history': 'calc; the returned schedule with reopened leaf dates is planned again by a fresh scheduler'}
+        evaluate(prop, sc2, ex2, acc, extra=extra)
+        if ex2.status != 'ok' and prop != 'C14':
+            V, _ = _mk_V(acc, prop, sc2, extra)
+            V('no-schedule-when-planned-again', '-', f'the second plan was not scheduled: {ex2.error!r}')
+
+
 def _work(chunk):
     prop, tier, lname, i, n = chunk
     acc = runtime.Acc()
@@ -368,6 +407,8 @@ def _work(chunk):
                 default_resource_histories(prop, acc)
         if i == 1:
             reuse_histories(prop, acc)
+        if i == 2:
+            replan_histories(prop, acc)
         return acc
     gen = dict(plan(prop, tier))[lname]()
     bound_cal = 2 if tier == 'quick' else 3
@@ -644,7 +685,7 @@ def c06_clock(sc, acc):
 def _c06_layers(tier):
     return [('L1', lambda: LY.L1(tier)), ('L1x', lambda: LY.L1x(tier)), ('L1y', lambda: LY.L1y(tier)), ('L2', lambda: LY.L2(tier)), ('L3', lambda: LY.L3(tier)),
             ('L6', lambda: LY.L6(tier)), ('L4clock', lambda: LY.L4_inputs(tier, ('fwd',))), ('L2ms', lambda: LY.L2ms(tier)),
-            ('L2n', lambda: LY.L2n(tier)), ('L1p', lambda: LY.L1p(tier)), ('H', None)]
+            ('L2n', lambda: LY.L2n(tier)), ('L1p', lambda: LY.L1p(tier)), ('L6r', lambda: LY.L6r(tier)), ('H', None)]
 
 
 def _work_c06(chunk):
